@@ -60,7 +60,7 @@ static const Avtp_FieldDescriptor_t Avtp_AafFieldDesc[AVTP_AAF_FIELD_MAX] =
 
 uint64_t Avtp_Aaf_GetField(Avtp_Aaf_t* pdu, Avtp_AafFields_t field)
 {
-    return Avtp_GetField(Avtp_AafFieldDesc, AVTP_AAF_FIELD_MAX, (uint8_t*)pdu, (uint8_t) field);
+    return Avtp_GetField(Avtp_AafFieldDesc, AVTP_AAF_FIELD_MAX, (uint8_t*)pdu, field);
 }
 
 uint8_t Avtp_Aaf_GetSubtype(Avtp_Aaf_t* pdu)
@@ -135,7 +135,7 @@ uint8_t Avtp_Aaf_GetEvt(Avtp_Aaf_t* pdu)
 
 void Avtp_Aaf_SetField(Avtp_Aaf_t* pdu, Avtp_AafFields_t field, uint64_t value)
 {
-    Avtp_SetField(Avtp_AafFieldDesc, AVTP_AAF_FIELD_MAX, (uint8_t*)pdu, (uint8_t) field, value); 
+    Avtp_SetField(Avtp_AafFieldDesc, AVTP_AAF_FIELD_MAX, (uint8_t*)pdu, field, value); 
 }
 
 void Avtp_Aaf_SetSubtype(Avtp_Aaf_t* pdu, uint8_t value)
